@@ -56,6 +56,16 @@ def script_cases(rng, tier):
                 c.op("hwrite", a, vfx.hexs(b"!"))
                 c.op("hdrop", a)
                 c.op("snap", t)
+            # a create handle over an EXISTING non-empty file starts empty: its end is 0, and what is published is what
+            # was written through it, not the old tail
+            w2 = c.op("createfile", vfx.ps(t, "f"))
+            c.op("hseek", w2, "e", 0)
+            if rng.random() < 0.6:
+                c.op("hwrite", w2, vfx.hexs(rng.choice([b"ab", b"x", b"shorter"])))
+                c.op("hseek", w2, "e", rng.choice([0, -1]))
+            c.op("hdrop", w2)
+            c.op("readtostring", vfx.ps(t, "f"))
+            c.op("snap", t)
             cases.append(c)
     return cases
 
@@ -68,7 +78,8 @@ P = histprop.HistProp(
     "C14", [], project=project, extra_gen=script_cases, builds=(False, True),
     rule=("handle scripts: read(n) with n in {0,1,2,7,len,len+5,4096}, seek(Start|Current|End) with offsets from "
           "{0,+-1,len-1,len,len+1,-len,-len-1,i64::MIN,i64::MAX,2^40,u64::MAX} on read handles (file in the upper or in a lower "
-          "layer); write/seek/flush scripts on create handles; seek on append handles on the in-memory configurations only; "
+          "layer); write/seek/flush scripts on create handles, also on a create handle over an existing non-empty file (it starts "
+          "empty); seek on append handles on the in-memory configurations only; "
           "every handle call's return value and the published bytes are compared, in debug and release builds"),
     assumptions=["write positions stay small (Vec allocation)", "std::io::Cursor semantics as stated in Base/Handles.v"])
 generate, corpus, run_and_compare, known = P.generate, P.corpus, P.run_and_compare, P.known
